@@ -332,7 +332,41 @@ void Exec::step(const Step &s) {
     }
     return;
   }
+  if (t == "proc") {
+    // n=[k, action, arg]: the k-th process the bus has started does something.  0: exec succeeded (pid reported);
+    // 1: exits with status arg (>= 256: killed by signal arg-256); 2: exec failed with errno arg
+    w.quiesce();              // whatever is in flight is processed first: the order of this event against client traffic is then unambiguous
+    resolve_choices();
+    check_activation_starts();
+    if (K->procs.empty()) return;
+    simk::Process *p = K->procs[(size_t)s.N(0, 0) % K->procs.size()];
+    std::string name = p->argv.size() >= 2 ? p->argv[1] : "";
+    int action = (int)s.N(1, 0);
+    long arg = s.N(2, 0);
+    bool was_running = !p->exited;
+    if (action == 0) K->proc_exec_ok(p);
+    else if (action == 1) K->proc_exit(p, arg >= 256 ? (int)(arg - 256) : (int)(arg << 8));
+    else K->proc_exec_failed(p, (int)(arg ? arg : 2));
+    note("proc(" + name + "," + std::to_string(action) + "," + std::to_string(arg) + ")");
+    w.quiesce();
+    resolve_choices();
+    md.now_us = K->now_us;
+    // an exit with status 0 is not a failure (the program may have daemonized): the waiters go on waiting
+    bool failure = was_running && (action == 2 || (action == 1 && arg != 0));
+    if (failure && p->pid == activation_pid[name]) { md.event++; md.activation_failed(name, action == 2 ? "exec" : "exit"); }
+    if (action == 1 && arg == 0) counters["probe:service_exit_status_0"]++;
+    return;
+  }
   if (t == "adv") {
+    if (!md.activatable.empty()) {
+      // C19: the clock moves between quiescent points, so that what a start timeout hits is unambiguous
+      w.quiesce(); resolve_choices(); check_activation_starts();
+      w.advance_ms(s.N(0, 0)); md.now_us = K->now_us;
+      w.quiesce(); resolve_choices();
+      md.event++;
+      for (auto &n : md.overdue_activations()) { md.activation_failed(n, "timeout"); counters["probe:service_start_timeout_fired"]++; }
+      return;
+    }
     if (plan.prop == "C15") {
       // descriptors waiting in the bus for the rest of their message are subject to pending_fd_timeout like any
       // others; a half-delivered message is finished before the clock moves (the slow sender is not this check's subject)
@@ -384,7 +418,7 @@ void Exec::step(const Step &s) {
   }
   if (t == "deliver") { w.deliver(ci, s.N(0, -1)); return; }
   if (t == "drain") { w.drain(ci, s.N(0, -1) < 0 ? (size_t)-1 : (size_t)s.N(0)); return; }
-  if (t == "close") { w.close_client(ci); note("c" + std::to_string(ci) + ":close"); return; }
+  if (t == "close") { if ((size_t)ci < md.conns.size()) md.conns[(size_t)ci].closing = true; w.close_client(ci); note("c" + std::to_string(ci) + ":close"); return; }
   if (t == "stall") { c.stalled = s.N(0, 1) != 0; return; }
   if (c.closed) return;
   if (t == "reqname") {
@@ -401,7 +435,8 @@ void Exec::step(const Step &s) {
   }
   if (t == "query") {
     std::vector<wire::Value> body;
-    if (s.S(0) != "ListNames" && s.S(0) != "GetId") body.push_back(wire::Value::string(resolve_name(s.S(1))));
+    if (s.S(0) != "ListNames" && s.S(0) != "GetId" && s.S(0) != "ListActivatableNames") body.push_back(wire::Value::string(resolve_name(s.S(1))));
+    if (s.S(0) == "StartServiceByName") body.push_back(wire::Value::u32(0));
     wire::Msg m = driver_call(ci, s.S(0), body);
     send_msg(ci, m, s.N(0, -1));
     note("c" + std::to_string(ci) + ":" + s.S(0) + "(" + s.S(1) + ")");
@@ -681,6 +716,12 @@ void Exec::compare_client(int ci) {
         for (size_t i = 0; i < g.items.size() && hit < 0; i++) {
           const bm::Exp &e = g.items[i];
           if (used[i] || e.optional != (pass == 1)) continue;
+          if (e.order_key > 0) {
+            // held messages are released in arrival order: an earlier one still outstanding goes first
+            bool earlier_left = false;
+            for (size_t j = 0; j < g.items.size(); j++) if (!used[j] && g.items[j].order_key > 0 && g.items[j].order_key < e.order_key) earlier_left = true;
+            if (earlier_left) continue;
+          }
           if (e.last) {
             bool pre_left = false;
             for (size_t j = 0; j < g.items.size(); j++) if (!used[j] && g.items[j].pre && !g.items[j].optional) pre_left = true;
@@ -844,6 +885,24 @@ void Exec::check_state_whitebox(const char *when) {
   }
 }
 
+// C19: the bus has started exactly the service programs the model says were needed, with the right argument
+void Exec::check_activation_starts() {
+  if (md.activatable.empty()) return;
+  if (K->procs.size() > md.activation_starts)
+    fail("oracle:C19:started-twice", "the bus has started %zu service processes, only %llu activations needed one (last: %s)", K->procs.size(), (unsigned long long)md.activation_starts,
+         K->procs.back()->argv.size() >= 2 ? K->procs.back()->argv[1].c_str() : "?");
+  if (K->procs.size() < md.activation_starts)
+    fail("oracle:C19:not-started", "%llu activations were needed, the bus has started %zu service processes", (unsigned long long)md.activation_starts, K->procs.size());
+  for (size_t i = procs_seen; i < K->procs.size(); i++) {
+    simk::Process *p = K->procs[i];
+    if (p->argv.size() != 2 || p->argv[0] != "/usr/libexec/simsvc" || !md.activatable.count(p->argv[1]))
+      fail("oracle:C19:wrong-program", "the bus started a program that no service file names");
+    activation_pid[p->argv[1]] = p->pid;
+    counters["service_processes_started"]++;
+  }
+  procs_seen = K->procs.size();
+}
+
 // C15: what arrived with each message is what was attached to it
 void Exec::check_fds(int ci) {
   bw::Client &c = w.C(ci);
@@ -906,6 +965,15 @@ void Exec::check_point(bool final) {
       if (c.connected && !c.closed && !c.saw_eof && w.accepted(c.idx) && !md.conns[(size_t)c.idx].hello && w.accept_time_us.count(c.idx) &&
           K->now_us - w.accept_time_us[c.idx] > (lim_cfg.auth_timeout + 1) * 1000) overdue = true;
     if (overdue) { w.advance_ms(lim_cfg.auth_timeout + 1); md.now_us = K->now_us; w.quiesce(); resolve_choices(); }
+  }
+  check_activation_starts();
+  // Bounded liveness for service_start_timeout: an activation that is overdue ends in errors for its waiters
+  if (!md.activatable.empty() && final && !md.activations.empty()) {
+    w.advance_ms(md.service_start_timeout_ms + 1); md.now_us = K->now_us;
+    w.quiesce(); resolve_choices();
+    md.event++;
+    for (auto &n : md.overdue_activations()) { md.activation_failed(n, "timeout"); counters["probe:service_start_timeout_fired"]++; }
+    for (auto &cl : w.clients) if (cl.connected && !cl.closed && !cl.stalled) w.drain(cl.idx);
   }
   // Bounded liveness for pending_fd_timeout: a connection that sent descriptors beyond what its messages
   // announced keeps them only that long; left alone it must be gone one timeout later.
@@ -1046,7 +1114,35 @@ void Exec::setup() {
   }
   for (unsigned u = 1000; u < 1008; u++) if (plan.C("console." + std::to_string(u), 0)) for (auto &usr : K->users) if (usr.uid == u) usr.at_console = true;
   K->sut_read_limit = (int)plan.C("knob.read_limit", 0);
-  w.start_bus(bw::make_bus_config(policy_xml, lim), (int)plan.C("uniq.major", 0), (int)plan.C("uniq.minor", 0));
+  std::string extra;
+  if (!plan.CS("activatable").empty()) {
+    // C19: service files in a scratch <servicedir>; the program each names is never run - the simulated kernel's
+    // fork() hands the harness a scripted process instead
+    std::string dir = bw::scratch_dir() + "/services";
+    std::string cmd = "rm -rf '" + dir + "'";
+    if (system(cmd.c_str())) {}
+    mkdir(dir.c_str(), 0755);
+    std::string act = plan.CS("activatable");
+    size_t i = 0;
+    while (i <= act.size()) {
+      size_t j = act.find(',', i);
+      if (j == std::string::npos) j = act.size();
+      if (j > i) {
+        std::string name = act.substr(i, j - i);
+        FILE *f = fopen((dir + "/" + name + ".service").c_str(), "w");
+        if (!f) core::harness_error("cannot write a service file");
+        fprintf(f, "[D-BUS Service]\nName=%s\nExec=/usr/libexec/simsvc %s\n", name.c_str(), name.c_str());
+        fclose(f);
+        md.activatable.insert(name);
+      }
+      i = j + 1;
+    }
+    extra = "  <servicedir>" + dir + "</servicedir>\n";
+    lim.service_start_timeout = plan.C("lim.start_timeout", -1);
+    if (lim.service_start_timeout >= 0) md.service_start_timeout_ms = lim.service_start_timeout;
+    lim_cfg = lim;
+  }
+  w.start_bus(bw::make_bus_config(policy_xml, lim, extra), (int)plan.C("uniq.major", 0), (int)plan.C("uniq.minor", 0));
 }
 
 std::vector<std::string> Exec::names_of(int c) {
